@@ -137,12 +137,12 @@ theorem detect_eq (a : Avail) : detectBackend a = firstAvailable a := by
 theorem supportsGraph_iff (db : String) :
     (db = "csugar" ∨ db = "enigma_csp" ∨ db = "cspuz_core") ↔ supportsGraphPrimitive db = true := by
   simp only [supportsGraphPrimitive, List.contains_cons, List.contains_nil, Bool.or_false, Bool.or_eq_true,
-    beq_iff_eq, eq_comm]
+    beq_iff_eq]
 
 theorem supportsDiv_iff (db : String) :
     (db = "enigma_csp" ∨ db = "cspuz_core") ↔ supportsDivisionPrimitive db = true := by
   simp only [supportsDivisionPrimitive, List.contains_cons, List.contains_nil, Bool.or_false, Bool.or_eq_true,
-    beq_iff_eq, eq_comm]
+    beq_iff_eq]
 
 theorem strtobool_True : strtobool "True" = .ok true := by decide
 theorem strtobool_False : strtobool "False" = .ok false := by decide
@@ -222,9 +222,15 @@ theorem byName_eq (s : String) :
       | some c => .ok c
       | none => .error .valueError := by
   unfold getBackendByName classOfName backendTable
-  simp only [List.lookup_cons, List.lookup_nil, beq_iff_eq]
-  repeat' split
-  all_goals first | rfl | simp_all
+  by_cases h1 : s = "sugar"; · subst h1; rfl
+  by_cases h2 : s = "sugar_extended"; · subst h2; rfl
+  by_cases h3 : s = "z3"; · subst h3; rfl
+  by_cases h4 : s = "csugar"; · subst h4; rfl
+  by_cases h5 : s = "enigma_csp"; · subst h5; rfl
+  by_cases h6 : s = "cspuz_core"; · subst h6; rfl
+  simp only [List.lookup_cons, List.lookup_nil, h1, h2, h3, h4, h5, h6, if_false,
+    beq_eq_false_iff_ne.2 h1, beq_eq_false_iff_ne.2 h2, beq_eq_false_iff_ne.2 h3,
+    beq_eq_false_iff_ne.2 h4, beq_eq_false_iff_ne.2 h5, beq_eq_false_iff_ne.2 h6]
 
 theorem getBackend_eq (arg : BackendArg) (cfg : Config) :
     getBackend arg cfg = match arg with
